@@ -275,6 +275,7 @@ func checkC05(p *Prog, res *Result, tier string) {
 	res.rule("C05-R4", "non-blocking sends on event channels exist only in the hub fan-out", 1)
 	res.rule("C05-R5", "one goroutine each for sequencer and hub; only the sequencer sends on the broadcast channel", 3)
 	res.rule("C05-R6", "the per-watch forwarder closes its output channel on every return", 1)
+	res.rule("C05-R8", "event batches are shared between subscribers (and with the cache): no function of pkg/backend appends onto a re-slice of, or stores into, an event slice it received as a parameter or from a channel", 3)
 	res.rule("C05-R7", "a write that was applied but reported with unknown outcome is queued for repair (errors.Is test, before commit), otherwise it is readable but never delivered to watchers (C09-R1)", 3)
 	res.Stats["roles"] = map[string]string{"register": funcName(w.register), "remover": funcName(w.remover), "fanout": funcName(w.fanout),
 		"cacheAdd": funcName(w.cacheAdd), "cacheFind": funcName(w.cacheFind), "watch": funcName(w.watchImpl), "forwarder": funcName(w.forwarder)}
@@ -566,6 +567,92 @@ func checkC05(p *Prog, res *Result, tier string) {
 			}
 		}
 	}
+	// ---- R8: received batches are read-only ----
+	{
+		bp := p.ssaPkg("pkg/backend")
+		evT := types.NewSlice(types.NewPointer(p.namedType("github.com/kubewharf/kubebrain-client/api/v2rpc", "Event")))
+		isEvSlice := func(t types.Type) bool { return types.Identical(t, evT) }
+		// foreign: the slice value comes (possibly re-sliced) from a parameter or a channel receive
+		var foreign func(v ssa.Value, d int, seen map[ssa.Value]bool) bool
+		foreign = func(v ssa.Value, d int, seen map[ssa.Value]bool) bool {
+			if v == nil || d > 10 || seen[v] {
+				return false
+			}
+			seen[v] = true
+			for _, x := range allCellValuesOpt(p, v, false) {
+				switch y := x.(type) {
+				case *ssa.Parameter:
+					return true
+				case *ssa.Slice:
+					if foreign(y.X, d+1, seen) {
+						return true
+					}
+				case *ssa.UnOp:
+					if y.Op == token.ARROW {
+						return true
+					}
+				case *ssa.Extract:
+					if u, ok := y.Tuple.(*ssa.UnOp); ok && u.Op == token.ARROW {
+						return true
+					}
+					if _, ok := y.Tuple.(*ssa.Next); ok {
+						return true // range over a channel / map of batches
+					}
+					if _, ok := y.Tuple.(*ssa.Select); ok {
+						return true
+					}
+				case *ssa.Call:
+					if bi, ok := y.Common().Value.(*ssa.Builtin); ok && bi.Name() == "append" && foreign(y.Common().Args[0], d+1, seen) {
+						return true
+					}
+				}
+			}
+			return false
+		}
+		n := 0
+		for _, f := range p.AllFuncs {
+			if f.Pkg != bp || f.Synthetic != "" {
+				continue
+			}
+			k := 0
+			for _, b := range f.Blocks {
+				for _, ins := range b.Instrs {
+					switch x := ins.(type) {
+					case *ssa.Call:
+						bi, ok := x.Common().Value.(*ssa.Builtin)
+						if !ok || bi.Name() != "append" || !isEvSlice(x.Common().Args[0].Type()) {
+							continue
+						}
+						k++
+						n++
+						construct := fmt.Sprintf("%s: append to an event slice #%d", funcName(f), k)
+						// appending onto a RE-SLICE of a foreign batch reuses its backing array; appending onto a
+						// foreign batch at full length may too, so both count
+						if foreign(x.Common().Args[0], 0, map[ssa.Value]bool{}) {
+							res.bad("C05-R8", construct, p.pos(x.Pos()), "the destination of the append is (a re-slice of) a batch received as a parameter or from a channel: the write lands in the array shared with the other subscribers and with what was already handed to the consumer")
+						} else {
+							res.ok("C05-R8", construct, p.pos(x.Pos()), "the destination is a slice made in this function")
+						}
+					case *ssa.Store:
+						ia, ok := x.Addr.(*ssa.IndexAddr)
+						if !ok || !isEvSlice(ia.X.Type()) {
+							continue
+						}
+						k++
+						n++
+						construct := fmt.Sprintf("%s: element store into an event slice #%d", funcName(f), k)
+						if foreign(ia.X, 0, map[ssa.Value]bool{}) {
+							res.bad("C05-R8", construct, p.pos(x.Pos()), "an element of a batch received as a parameter or from a channel is overwritten: the batch is shared with the other subscribers")
+						} else {
+							res.ok("C05-R8", construct, p.pos(x.Pos()), "the slice was made in this function")
+						}
+					}
+				}
+			}
+		}
+		res.Stats["event_slice_writes"] = n
+	}
+
 }
 
 func reachesFunc(p *Prog, from, target *ssa.Function, depth int) bool {
